@@ -1185,6 +1185,12 @@ func (e *Enc) coverQueries() {
 }
 
 func (e *Enc) emitGlobalAxioms() {
+	// opt strzero on: the zero value of a string (term 0, e.g. a field of a zero-initialised struct)
+	// is the empty string. Universally true, but kept opt-in: as a prelude axiom it changed the
+	// solvers' behaviour on a few fragile nonlinear queries of other properties.
+	if e.ctr != nil && e.ctr.Opts["strzero"] == "on" {
+		e.assume("(= sempty 0)")
+	}
 	for _, ax := range e.DB.Axioms {
 		ctx := &specCtx{env: map[string]envEntry{}, st: e.entry, old: e.entry, pkg: ax.Pkg}
 		if !e.axiomRelevant(ax) {
